@@ -129,6 +129,11 @@ func roundTrip(doc *gedcom.Document) *harness.Failure {
 			}
 		}
 	}
+	// "the text the encoder writes": when Encode reports success, what the writer took is the
+	// whole text - also when the writer refused one of the writes (once, or from then on)
+	if f := failingWriters(doc, text); f != nil {
+		return f
+	}
 	// encoding is repeatable, decoding the text did not touch the source, and the decoded
 	// document encodes to the same text
 	var again, second string
@@ -140,6 +145,52 @@ func roundTrip(doc *gedcom.Document) *harness.Failure {
 	}
 	if second != text {
 		return harness.Failf("second-generation-differs", "the decoded document encodes as %q, the original as %q", trunc(second), trunc(text))
+	}
+	return nil
+}
+
+// faultyWriter refuses the k-th Write (counted from 0), and every later one when persistent.
+type faultyWriter struct {
+	k, n       int
+	persistent bool
+	taken      bytes.Buffer
+}
+
+func (w *faultyWriter) Write(p []byte) (int, error) {
+	i := w.n
+	w.n++
+	if i == w.k || (w.persistent && i > w.k) {
+		return 0, fmt.Errorf("write %d refused", i)
+	}
+	return w.taken.Write(p)
+}
+
+func failingWriters(doc *gedcom.Document, text string) *harness.Failure {
+	count := &faultyWriter{k: -1}
+	if err := gedcom.NewEncoder(count, doc).Encode(); err != nil || count.n == 0 {
+		return nil
+	}
+	n := count.n
+	seen := map[int]bool{}
+	for _, k := range []int{0, n / 2, n - 1, len(text) % n} {
+		if k < 0 || k >= n || seen[k] {
+			continue
+		}
+		seen[k] = true
+		for _, persistent := range []bool{false, true} {
+			w := &faultyWriter{k: k, persistent: persistent}
+			var err error
+			if f := safely("encoder", func() { err = gedcom.NewEncoder(w, doc).Encode() }); f != nil {
+				return f
+			}
+			if err == nil && w.taken.String() != text {
+				mode := "once"
+				if persistent {
+					mode = "from then on"
+				}
+				return harness.Failf("success-reported-for-partial-text", "the writer refused write %d of %d (%s), Encode reported success, and the writer holds %q of the text %q", k, n, mode, trunc(w.taken.String()), trunc(text))
+			}
+		}
 	}
 	return nil
 }
